@@ -771,3 +771,48 @@ func ResponseByCode(code byte) (Layout, bool) {
 	}
 	return Layout{}, false
 }
+
+// Sample builds a well-formed message of layout l: correct header, every field in its domain and non-zero (values vary
+// with salt), zero in every byte that belongs to no field. Fields named "magic" carry the magic word.
+func Sample(l Layout, som byte, serial uint32, salt int) []byte {
+	b := make([]byte, 64)
+	Header(b, som, l.Code, serial)
+	for i, fl := range l.Fields {
+		p := b[fl.Off:]
+		k := i + salt
+		switch fl.Kind {
+		case U8:
+			p[0] = byte(1 + (3+k)%250)
+		case U16, Version:
+			PutLE16(p, uint16(0x0892+k))
+		case U32:
+			if fl.Name == "magic" {
+				PutLE32(p, Magic)
+			} else {
+				PutLE32(p, uint32(0x01020304+k*0x01010101))
+			}
+		case Bool:
+			p[0] = byte((k + 1) % 2)
+		case IPv4:
+			copy(p, []byte{192, 168, byte(1 + k%200), 100})
+		case AddrPort:
+			copy(p, []byte{192, 168, 1, byte(1 + k%200), 0x61, 0xea})
+		case MAC:
+			copy(p, []byte{0x00, 0x66, 0x19, 0x39, 0x55, byte(0x2d + k)})
+		case PIN:
+			v := uint32(100000 + (k*7919)%899999)
+			p[0], p[1], p[2] = byte(v), byte(v>>8), byte(v>>16)
+		case HHmm:
+			PutHM(p, HM{H: (8 + k) % 24, M: (30 + k) % 60})
+		case Date:
+			PutDate(p, Civil{Y: 2024, M: 1 + k%12, D: 1 + (19+k)%28})
+		case DateTime:
+			PutDateTime(p, CivilDT{Y: 2023, M: 1 + (10+k)%12, D: 1 + (29+k)%28, H: (13 + k) % 24, Mi: (14 + k) % 60, S: (15 + k) % 60})
+		case SysDate:
+			p[0], p[1], p[2] = 0x24, bcd2(1+(11+k)%12), bcd2(1+(30+k)%28)
+		case SysTime:
+			p[0], p[1], p[2] = bcd2((23+k)%24), bcd2((59+k)%60), bcd2((58+k)%60)
+		}
+	}
+	return b
+}
